@@ -63,7 +63,7 @@ def modelClass (name : String) (input : Bytes) : Option String :=
       | .panic => "panic"
       | _ => "ok")
   else if name = "authData" then
-    let ok := match PasskeyVerif.AuthData.AuthData.fromSlice Driver.AuthData.skip Driver.AuthData.validKey input with
+    let ok := match PasskeyVerif.AuthData.AuthData.fromSlice PasskeyVerif.AuthData.skip PasskeyVerif.AuthData.validKey input with
       | Except.ok _ => true
       | Except.error _ => false
     if authDataModelled input ok then some (if ok then "ok" else "err") else none
